@@ -71,6 +71,9 @@ def generate(rng, run, tier):
             continue
         try:
             o = H.gen_conforming(rng, h, maxlen=maxlen)
+            if maxlen > 6 and len(repr(o)) > 150000:
+                # long containers nested in long containers: thousands of leaves, rebuilt for every draw and entry point
+                o = H.gen_conforming(rng, h, maxlen=6)
             break
         except H.CannotGenerate:
             continue
